@@ -154,8 +154,33 @@ structure CaseSt where
   walks : List Spec.Overlay.Walk                       -- implementation's walks after the previous line
   implLive : Bool                                      -- the implementation's `new` succeeded
   written : List (Spec.Overlay.Path × Bool × Bytes)    -- (location, suffix flag) ↦ last payload written
+  rw : List (Nat × String × Option Nat) := []          -- re-encoding graph: (payload, kind+edit) ↦ payload / `!`
 
 abbrev State := Option CaseSt
+
+/-- `r<i>.<kind><edit>=p<j>` / `=!` entries appended to the `A` field. -/
+def parseRw (s : String) : List (Nat × String × Option Nat) :=
+  (s.splitOn ",").filterMap (fun e =>
+    if e.startsWith "r" then
+      match (e.drop 1).toString.splitOn "=" with
+      | [lhs, rhs] =>
+        match lhs.splitOn "." with
+        | [i, ke] => i.toNat?.map (fun i => (i, ke, pidx rhs))
+        | _ => none
+      | _ => none
+    else none)
+
+/-- Result of read → edit → serialize for the bytes `b` (abstract codec, from the table). -/
+def reencoded (st : CaseSt) (b : Bytes) (ke : String) : Option (Option Bytes) :=
+  match st.table.findIdx? (fun r => r.bytes == b) with
+  | none => none
+  | some i =>
+    match st.rw.find? (fun e => e.1 == i && e.2.1 == ke) with
+    | none => none
+    | some e =>
+      match e.2.2 with
+      | none => some none
+      | some j => (st.table[j]?).map (fun r => some r.bytes)
 
 /-! ### the model side -/
 
@@ -204,6 +229,24 @@ def modelStep (st : CaseSt) (fs : Fs) (c : List String) : Fs × String :=
   | "read_cgfx" => (fs, resStr id (fs.readCgfxTextures E path (loc? (arg 3))))
   | "write_archive" => let (fs', o) := fs.writeArchive E path (arg 3) (loc? (arg 4)); (fs', unitStr o)
   | "write_text" => let (fs', o) := fs.writeTextArchive E path (arg 3) (loc? (arg 4)); (fs', unitStr o)
+  | "rw_text" | "rw_bin" =>
+    -- typed read, an edit and the typed write: byte-level read, the (abstract) re-encoding, byte-level write
+    let isText := c.getD 1 "" == "rw_text"
+    let dst := hexOrBad (arg 3)
+    let loc := loc? (arg 5)
+    let typed : Res String := if isText then fs.readTextArchive E path loc else fs.readArchive E path loc
+    match typed with
+    | .err e => (fs, "err " ++ e.name)
+    | .panic => (fs, "panic")
+    | .ok _ =>
+      match fs.read E path loc with
+      | .ok b =>
+        match reencoded st b ((if isText then "t" else "b") ++ arg 4) with
+        | some (some bytes) => let (fs', o) := fs.write E dst bytes loc; (fs', unitStr o)
+        | some none => (fs, "err Invalid")
+        | none => (fs, "bad-table")
+      | .err e => (fs, "err " ++ e.name)
+      | .panic => (fs, "panic")
   | "cfg" =>
     let e := match fs.cfg.endian with | .big => "Big" | .little => "Little"
     let t := match fs.cfg.text with | .shiftJis => "ShiftJIS" | .unicode => "Unicode"
@@ -359,6 +402,28 @@ def oracleStep (st : CaseSt) (c : List String) (i : List String) : String × Lis
        | none => ("FAIL bad-case", W))
     | some none => if isErr im.out && unchanged then ("ok", W) else ("FAIL unserialisable archive must be an error", W)
     | none => ("FAIL bad-case", W)
+  | "rw_text" | "rw_bin" =>
+    let isText := op == "rw_text"
+    let loc := loc? (arg 5)
+    let dst := hexOrBad (arg 3)
+    (match target g lang path loc with
+    | .skip => ("ok skip", [])
+    | .mustErr => if isErr im.out && unchanged then ("ok", W) else ("FAIL typed read of an unlocalisable path must be an error", W)
+    | .at _ q =>
+      match expectedRead st g q path with
+      | none => ("ok skip stored bytes outside the codec table", [])
+      | some (.error _) => if isErr im.out && unchanged then ("ok", W) else ("FAIL typed read must fail when the byte-level read fails", W)
+      | some (.ok b) =>
+        let k := digIndex g (if isText then "read_text" else "read_archive")
+        match (st.table.find b).bind (fun r => r.digs[k]?) with
+        | some "!" => if isErr im.out && unchanged then ("ok", W) else ("FAIL typed read: codec rejects these bytes", W)
+        | some "p" => ("ok skip codec panics on these bytes", [])
+        | none => ("ok skip bytes outside the codec table", [])
+        | some _ =>
+          match reencoded st b ((if isText then "t" else "b") ++ arg 4) with
+          | some (some bytes) => oracleWrite st g lang im dst bytes loc   -- the archive must be written like its serialisation
+          | some none => if isErr im.out && unchanged then ("ok", W) else ("FAIL unserialisable archive must be an error", W)
+          | none => ("ok skip re-encoding outside the table", []))
   | "create_dir" =>
     (match target g lang path (loc? (arg 3)) with
     | .skip => ("ok skip", W)
@@ -474,7 +539,7 @@ def stepNew (c i : List String) : State × String × String :=
         else if !expectOk && !isErr x.out then "FAIL new must fail (no layers / unsupported game)"
         else if !sameWalks (layers.map layerWalk) x.walks then "FAIL new changed the layer directories"
         else "ok"
-    (some ⟨id, g, lang, table, arch, r.toOption, implWalks, implOk, []⟩, m, o)
+    (some ⟨id, g, lang, table, arch, r.toOption, implWalks, implOk, [], parseRw (c.getD 6 "")⟩, m, o)
   | _, _, _ => (none, "bad-case", "FAIL bad-case")
 
 def family : Family where
